@@ -264,7 +264,7 @@ def gen_line_spec(sc, mac):
                         (len(ka), len(kb), len(doublets), len(la), len(lb)))
     out = ["/* generated from the macro names of include/xraylib-lines.h and the Siegbahn aliases of include/xraylib.h */",
            "#ifndef SPEC_LINES_H", "#define SPEC_LINES_H",
-           "#define SPEC_SLOT(line) (-(line) - 1)",
+           "#define SPEC_SLOT(line) ((line) < 0 ? -((line) + 1) : -1)   /* overflow-free for every int */",
            "#define SPEC_NLINES %d" % len([1 for n, v in mac.lines_all if v < 0]),
            "#define SPEC_LINE_MIN %d" % min(v for _, v in mac.lines_all),
            "static const int SPEC_KA[%d] = {%s};" % (len(ka), ", ".join(ka)),
@@ -286,4 +286,86 @@ def gen_line_spec(sc, mac):
     out.append("#endif")
     with open(os.path.join(d, "spec_lines.h"), "w") as f:
         f.write("\n".join(out) + "\n")
+    # line slot -> index of the shell the transition starts from (name prefix), -1 for shells other than K, L1..L3
+    shell_of = []
+    byslot = sorted([(v, n) for n, v in mac.lines_all if v < 0], reverse=True)   # slot 0 = value -1
+    for v, n in byslot:
+        m = re.match(r"^(K|L1|L2|L3)", n)
+        shell_of.append(m.group(1) + "_SHELL" if m else "-1")
+    if [v for v, _ in byslot] != list(range(-1, -len(byslot) - 1, -1)):
+        raise Undecided("line macro values are not the contiguous range -1..-%d" % len(byslot))
+    # the lines of each of K, L1, L2, L3 occupy one contiguous block of macro values (checked here): emit the blocks
+    ranges = {}
+    for cls in ("K", "L1", "L2", "L3"):
+        vals = sorted(v for v, n in byslot if re.match(r"^%s(?![0-9])" % cls, n))
+        if not vals or vals != list(range(vals[0], vals[-1] + 1)):
+            raise Undecided("lines of shell %s do not form one contiguous block of macro values" % cls)
+        ranges[cls] = (vals[0], vals[-1])
+    rng_txt = "".join("#define SPEC_%s_LINES_LO %d\n#define SPEC_%s_LINES_HI %d\n" % (c, ranges[c][0], c, ranges[c][1]) for c in ranges)
+    with open(os.path.join(d, "spec_lineshell.h"), "w") as f:
+        f.write(rng_txt)
+        f.write("/* generated: shell named by the first component of each IUPAC line macro name */\n"
+                "#ifndef SPEC_LINESHELL_H\n#define SPEC_LINESHELL_H\n"
+                "static const int SPEC_LINE_SHELL[%d] = {%s};\n#endif\n" % (len(shell_of), ", ".join(shell_of)))
+    # the hand-ordered L-beta member lists of harness/h_fluor.c must be exactly the name-derived set
+    hf = os.path.join(os.path.dirname(os.path.dirname(os.path.abspath(__file__))), "harness", "h_fluor.c")
+    if os.path.exists(hf):
+        txt = read(hf)
+        got = set()
+        for arr in ("LB_L2", "LB_L3", "LB_L1"):
+            m = re.search(r"static const int %s\[\] = \{([^}]*)\}" % arr, txt)
+            if not m:
+                raise Undecided("L-beta member list %s not found in harness/h_fluor.c" % arr)
+            got |= {x.strip() for x in m.group(1).split(",") if x.strip()}
+        want = set()
+        dmap = {x[0]: (x[1], x[2]) for x in doublets}
+        for a, t in lbm:
+            want.add(t)
+            if t in dmap:
+                want |= set(dmap[t])
+        if got != want:
+            raise Undecided("L-beta member list of harness/h_fluor.c differs from the name-derived set: %s" % sorted(got ^ want))
     return {"ka": ka, "kb": kb, "doublets": doublets, "la": la, "lb": lbm}
+
+
+# --------------------------------------------------------------------------- K3: macro <-> slot <-> name table
+
+def gen_name_chain(sc, mac):
+    """gen/k3_names.c: one assertion per macro: the name table entry at the macro's slot spells the macro's name.
+    The table the build-time parser uses to file data-file records (src/xrayvars.c) is the real one; the expected
+    spelling is derived from the header text.  Character-wise, so every assertion is over constant data."""
+    d = sc.gen_dir()
+    out = ['/* generated from include/xraylib-lines.h, xraylib-shells.h, xraylib.h (transitions), xraylib-auger.h */',
+           '#include "config.h"', '#include "xraylib.h"', '#include "xrayvars.h"', '#include "xrayglob.h"',
+           'extern char ShellName[][5]; extern char LineName[][6]; extern char TransName[][6]; extern char AugerName[][9];',
+           'void k3_names(void) {']
+    n = 0
+
+    def spell(table, idx, name, macro):
+        nonlocal n
+        conds = ["%s[%s][%d] == '%s'" % (table, idx, i, ch) for i, ch in enumerate(name)]
+        conds.append("%s[%s][%d] == 0" % (table, idx, len(name)))
+        out.append('  __CPROVER_assert(%s, "name chain: %s[%s] spells \\"%s\\"");' % (" && ".join(conds), table, macro, name))
+        n += 1
+    nshellnames = None
+    for name, v in mac.shells:
+        if v < 28:  # ShellName has one entry per column of the 28-column scalar tables (SHELLNUM); checked below
+            spell("ShellName", name, name[:-6], name)
+    for name, v in mac.lines_all:
+        if v < 0:
+            spell("LineName", "-(%s) - 1" % name, name[:-5], name)
+    for name, v in mac.trans:
+        b = name[:-6]
+        dat = ("F" + b[2:]) if b.startswith("FL") else b
+        spell("TransName", name, dat, name)
+    for name, v in mac.auger:
+        b = name[:-6]
+        spell("AugerName", name, b.replace("_", "-", 1), name)
+    out.append('  __CPROVER_assert(SHELLNUM == 28 && LINENUM == %d && TRANSNUM == %d && AUGERNUM == %d, "table dimensions equal the number of macros");'
+               % (len([1 for _, v in mac.lines_all if v < 0]), len(mac.trans) + 1, len(mac.auger)))
+    out.append('  __CPROVER_assert(0, "CANARY name chain reached");')
+    out.append('}')
+    path = os.path.join(d, "k3_names.c")
+    with open(path, "w") as f:
+        f.write("\n".join(out) + "\n")
+    return path, n
